@@ -5,3 +5,4 @@ import RattrDriver.AstJson
 import RattrDriver.Visit
 import RattrDriver.C20
 import RattrDriver.C10
+import RattrDriver.C13
